@@ -288,9 +288,21 @@ func (e *Exec) roundReal(x *Term, w int, constArgs bool) *Term {
 	zero := e.B.RealConst(new(big.Rat))
 	abs := e.B.Ite(e.B.RCmp(ORLe, zero, x), x, e.B.RNeg(x))
 	bound := e.B.RBin(ORAdd, e.B.RBin(ORMul, e.B.RealConst(u), abs), e.B.RealConst(eta))
-	e.sideConds = append(e.sideConds, e.B.RCmp(ORLe, e.B.RNeg(bound), er), e.B.RCmp(ORLe, er, bound))
 	e.assume(e.B.And(e.B.RCmp(ORLe, e.B.RNeg(bound), er), e.B.RCmp(ORLe, er, bound)))
-	return e.B.RBin(ORAdd, x, er)
+	res := e.B.RBin(ORAdd, x, er)
+	if e.Cfg.MonotoneRounding {
+		// rounding to nearest is one monotone function per width: p <= q => fl(p) <= fl(q)
+		for _, prev := range e.roundings {
+			if prev.w != w {
+				continue
+			}
+			e.assume(e.B.Implies(e.B.RCmp(ORLe, prev.exact, x), e.B.RCmp(ORLe, prev.rounded, res)))
+			e.assume(e.B.Implies(e.B.RCmp(ORLe, x, prev.exact), e.B.RCmp(ORLe, res, prev.rounded)))
+		}
+		e.roundings = append(e.roundings, roundingSite{x, res, w})
+		e.noteAssumption("IEEE-754 round-to-nearest is a monotone function (instantiated for every pair of rounded operations of equal width)")
+	}
+	return res
 }
 
 // ---------------- conversions ----------------
@@ -395,6 +407,9 @@ func (e *Exec) convBasic(db, sb *types.Basic, x Value) Value {
 	di, si := db.Info(), sb.Info()
 	switch {
 	case si&types.IsInteger != 0 && di&types.IsInteger != 0:
+		if x.(*Term).Sort.K == SReal {
+			return x
+		}
 		_, ssigned := e.intWidth(sb)
 		dw, _ := e.intWidth(db)
 		return e.B.Resize(x.(*Term), dw, ssigned)
@@ -402,6 +417,9 @@ func (e *Exec) convBasic(db, sb *types.Basic, x Value) Value {
 		_, ssigned := e.intWidth(sb)
 		fw := floatWidth(db)
 		t := x.(*Term)
+		if t.Sort.K == SReal {
+			return t
+		}
 		if e.Cfg.Float == FloatFP {
 			return e.B.FpFromBV(t, ssigned, fw)
 		}
@@ -470,7 +488,17 @@ func (e *Exec) floatToInt(t *Term, db *types.Basic) Value {
 			f, _ := t.R.Float64()
 			return e.B.BVConst(uint64(int64(f)), dw)
 		}
-		panic(errorf("float->int conversion of a symbolic real"))
+		// real modes: the truncated value is a fresh real k with k <= t < k+1
+		// (integrality is dropped: an over-approximation), valid for t >= 0
+		zero := e.B.RealConst(new(big.Rat))
+		if r := e.check(e.B.RCmp(ORLt, t, zero)); r != Unsat {
+			panic(errorf("float->int conversion of a possibly negative symbolic real"))
+		}
+		k := e.B.IntToReal(e.B.Fresh("trunc", IntSort))
+		one := e.B.RealConst(big.NewRat(1, 1))
+		e.assume(e.B.And(e.B.RCmp(ORLe, k, t), e.B.RCmp(ORLt, t, e.B.RBin(ORAdd, k, one))))
+		e.noteAssumption("real modes: float->int truncation is to_real of an integer k with k <= t < k+1; integer-typed values derived from it are carried as reals (no wrap-around modelled)")
+		return k
 	}
 	if t.IsConst() {
 		return e.B.BVConst(nativeFloatToInt(t.F, t.Sort.W, dw, dsigned), dw)
@@ -544,4 +572,9 @@ func nativeFloatToInt(f float64, fw, dw int, dsigned bool) uint64 {
 	default:
 		return uint64(f)
 	}
+}
+
+type roundingSite struct {
+	exact, rounded *Term
+	w              int
 }
